@@ -20,7 +20,12 @@ from histprops import case_of, same_result, LOGF, finish
 def add_subproject_task(project, rng):
     """append a BaseSubProjectTask (automatic, never configured from a file) to the workflow"""
     sub = BaseSubProjectTask(name="SUB", ID="sub0", default_work_amount=rng.choice([0.0, 1.0, 2.0]),
-                             unit_timedelta=datetime.timedelta(hours=rng.choice([6, 12, 24])))
+                             unit_timedelta=datetime.timedelta(hours=rng.choice([6, 12, 24, 48])))
+    # three DIFFERENT rules, a due time: every saved field of the sub-project task must come back as itself
+    sub.worker_priority_rule = rng.choice(list(ResourcePriorityRuleMode))
+    sub.facility_priority_rule = rng.choice([r for r in ResourcePriorityRuleMode if r != sub.worker_priority_rule])
+    sub.workplace_priority_rule = rng.choice(list(WorkplacePriorityRuleMode))
+    sub.due_time = rng.choice([-1, 3, 7])
     tl = project.workflow.task_list
     if tl and rng.random() < 0.7:
         sub.append_input_task(tl[rng.randrange(len(tl))])
